@@ -147,70 +147,3 @@ pub mod proofs {
     );
 }
 
-/// Partial-name sources (`git fetch origin main`): git's `ref_rev_parse_rules` expansion.
-#[cfg(kani)]
-pub mod partial {
-    use super::*;
-    use gix_refspec::verif_hooks::matches_lhs;
-
-    /// Build `<prefix><p><suffix>` into a fixed buffer; returns the length.
-    fn expand<const P: usize>(prefix: &[u8], p: &[u8; P], suffix: &[u8], out: &mut [u8; 32]) -> usize {
-        let mut o = 0;
-        let mut i = 0;
-        while i < prefix.len() {
-            out[o] = prefix[i];
-            o += 1;
-            i += 1;
-        }
-        i = 0;
-        while i < P {
-            out[o] = p[i];
-            o += 1;
-            i += 1;
-        }
-        i = 0;
-        while i < suffix.len() {
-            out[o] = suffix[i];
-            o += 1;
-            i += 1;
-        }
-        o
-    }
-
-    /// A partial name `p` (no '*', not starting with "refs/", not 40 hex digits) matches exactly git's six expansions.
-    pub fn partial_rule<const P: usize>(rule: usize) {
-        const RULES: [(&[u8], &[u8]); 7] = [
-            (b"", b""),
-            (b"refs/", b""),
-            (b"refs/tags/", b""),
-            (b"refs/heads/", b""),
-            (b"refs/remotes/", b""),
-            (b"refs/remotes/", b"/HEAD"),
-            // not a rule of git: must NOT match
-            (b"refs/notes/", b""),
-        ];
-        let p: [u8; P] = kani::any();
-        let mut i = 0;
-        while i < P {
-            kani::assume(p[i] != b'*' && p[i] != b'/');
-            i += 1;
-        }
-        let mut name = [0u8; 32];
-        let n = expand(RULES[rule].0, &p, RULES[rule].1, &mut name);
-        let id = ObjectId::null(gix_hash::Kind::Sha1);
-        let item = Item { full_ref_name: name[..n].as_bstr(), target: &id, object: None };
-        let (matched, rhs) = matches_lhs(Some(p[..].as_bstr()), None, item);
-        assert!(rhs.is_none());
-        assert!(matched == (rule < 6), "a partial name matches exactly the refs git's DWIM rules expand it to");
-        kani::cover!(true, "decided");
-    }
-    macro_rules! pr {
-        ($($name:ident = ($p:literal, $r:literal)),* $(,)?) => {$(
-            #[kani::proof]
-            #[kani::unwind(34)]
-            #[kani::stub(alloc::fmt::format, crate::util::stub_format)]
-            pub fn $name() { partial_rule::<$p>($r) }
-        )*};
-    }
-    pr!(c32_partial_r0 = (2, 0), c32_partial_r1 = (2, 1), c32_partial_r2 = (2, 2), c32_partial_r3 = (2, 3), c32_partial_r4 = (2, 4), c32_partial_r5 = (2, 5), c32_partial_not = (2, 6));
-}
